@@ -552,7 +552,9 @@ def typed_option_op(rng, i):
         return f"set {i} new_home_agent_info {u(rng, 16)},{u(rng, 16)},{u(rng, 16)}"
     if k in (8, 9):
         name = "source_addr_list" if k == 8 else "target_addr_list"
-        return f"set {i} {name} {hexs(rng.choice([bytes(6), rb(rng, 6)]))} {','.join(hexs(ip6(rng)) for _ in range(rng.randint(1, 3)))}"
+        # 1 … 127 addresses: the length octet counts units of 8 octets (8 + 16 n <= 2040)
+        cnt = rng.choice([1, 1, 2, 3, 3, 126, 127]) if rng.random() < 0.15 else rng.randint(1, 3)
+        return f"set {i} {name} {hexs(rng.choice([bytes(6), rb(rng, 6)]))} {','.join(hexs(ip6(rng)) for _ in range(cnt))}"
     if k == 10:
         return f"set {i} rsa_signature {hexs(rb(rng, 16))} {hexs(rb(rng, rng.choice([1, 3, 4, 5, 6, 12, 13, 20, 128])))}"
     if k == 11:
@@ -562,27 +564,54 @@ def typed_option_op(rng, i):
     if k == 13:
         return f"set {i} ip_prefix {u(rng, 8)} {u(rng, 8)} {hexs(ip6(rng))}"
     if k == 14:
-        return f"set {i} link_layer_addr {u(rng, 8)} {hexs(rb(rng, rng.choice([0, 1, 5, 6, 7, 8, 13, 14])))}"
+        return f"set {i} link_layer_addr {u(rng, 8)} {hexs(rb(rng, rng.choice([0, 1, 5, 6, 7, 8, 13, 14, 21])))}"
     if k == 15:
         return f"set {i} naack {u(rng, 8)} {u(rng, 8)}"
     if k == 16:
         return f"set {i} map {rng.randrange(16)} {rng.randrange(16)} {rng.randrange(2)} {u(rng, 32)} {hexs(ip6(rng))}"
     if k == 17:
-        return f"set {i} route_info {u(rng, 8)} {rng.randrange(4)} {u(rng, 32)} {hexs(rb(rng, rng.choice([0, 8, 16])))}"
+        return f"set {i} route_info {u(rng, 8)} {rng.randrange(4)} {u(rng, 32)} {hexs(rb(rng, rng.choice([0, 8, 16, 3, 9])))}"
     if k == 18:
-        return f"set {i} recursive_dns_servers {u(rng, 32)} {','.join(hexs(ip6(rng)) for _ in range(rng.randint(1, 3)))}"
+        cnt = rng.choice([1, 2, 126, 127]) if rng.random() < 0.15 else rng.randint(1, 3)
+        return f"set {i} recursive_dns_servers {u(rng, 32)} {','.join(hexs(ip6(rng)) for _ in range(cnt))}"
+    # handover key options: every value of the 4-bit AT field (RFC 5269), key sizes at every padding 0 … 7 incl. the empty key
     if k == 19:
-        return f"set {i} handover_key_request {rng.randrange(4)} {hexs(rb(rng, rng.choice([4, 5, 7, 8, 12, 13])))}"
+        return f"set {i} handover_key_request {rng.randrange(16)} {hexs(rb(rng, rng.choice(list(range(0, 14)) + [2030])))}"
     if k == 20:
-        return f"set {i} handover_key_reply {u(rng, 16)} {rng.randrange(4)} {hexs(rb(rng, rng.choice([2, 3, 5, 8, 10, 11])))}"
+        return f"set {i} handover_key_reply {u(rng, 16)} {rng.randrange(16)} {hexs(rb(rng, rng.choice(list(range(0, 14)) + [2028])))}"
     if k == 21:
-        return f"set {i} handover_assist_info {u(rng, 8)} {hexs(rb(rng, rng.choice([0, 1, 3, 4, 5, 12, 13])))}"
+        return f"set {i} handover_assist_info {u(rng, 8)} {hexs(rb(rng, rng.choice(list(range(0, 14)) + [255])))}"
     if k == 22:
-        return f"set {i} mobile_node_identifier {u(rng, 8)} {hexs(rb(rng, rng.choice([0, 1, 3, 4, 5, 12, 13])))}"
-    doms = []
-    for _ in range(rng.randint(1, 3)):
-        doms.append(b".".join(bytes(rng.choice(b"abcxyz019-") for _ in range(rng.randint(1, 7))) for _ in range(rng.randint(1, 3))))
-    return f"set {i} dns_search_list {u(rng, 32)} {','.join(hexs(d) for d in doms)}"
+        return f"set {i} mobile_node_identifier {u(rng, 8)} {hexs(rb(rng, rng.choice(list(range(0, 14)) + [255])))}"
+    return dns_search_list_op(rng, i)
+
+
+def dns_label(rng, n):
+    return bytes(rng.choice(b"abcxyz019-") for _ in range(n))
+
+
+def dns_search_list_op(rng, i):
+    """names at the representability boundary (ReprDnsSearch): the empty list, one label of one octet, encodings that need
+    every padding 0 … 7 (a single name of L characters encodes to L + 2 octets behind the 8 fixed ones), labels of 63 and
+    255 octets, a list that fills the option (2032 octets of names); otherwise 1 … 3 random names of 1 … 3 labels"""
+    r = rng.random()
+    if r < 0.08:
+        doms = []
+    elif r < 0.45:
+        # padding p needs (L + 2) % 8 == (8 - p) % 8
+        L = rng.randint(1, 24)
+        doms = [dns_label(rng, L)]
+        if rng.random() < 0.4:
+            doms = [dns_label(rng, 3) + b"." + dns_label(rng, 3)] + doms          # 8 more octets: same padding
+    elif r < 0.52:
+        doms = [dns_label(rng, rng.choice([63, 64, 255]))]
+    elif r < 0.55:
+        doms = [dns_label(rng, 252)] * 8                                          # 8 * 254 = 2032 octets: the maximum
+    else:
+        doms = []
+        for _ in range(rng.randint(1, 3)):
+            doms.append(b".".join(dns_label(rng, rng.randint(1, 7)) for _ in range(rng.randint(1, 3))))
+    return f"set {i} dns_search_list {u(rng, 32)} {','.join(hexs(d) for d in doms) if doms else '-'}"
 
 
 TYPED_CODES = {"source_link_layer_addr": 1, "target_link_layer_addr": 2, "prefix_info": 3, "redirect_header": 4, "mtu": 5,
@@ -732,6 +761,18 @@ def known_finding_probes():
         "new", "push ICMPv6 135", "set 0 nonce 0102030405060708", "show",
         # regression: KF-C04-Icmp-1 (rsa_signature padding)
         "new", "push ICMPv6 135", "set 0 rsa_signature 860dc55191a26bdeecc6bde36d5f726a f9eebd", "show",
+        # typed codecs at the representability boundary, one option per packet so that the oracle's value clause applies:
+        # DNS search lists whose encoding needs padding 0 (seeded/C04e) … 7, the empty list, a 255-octet label
+    ] + [x for L in (6, 5, 4, 3, 2, 1, 8, 7) for x in
+         ("new", "push ICMPv6 134", f"set 0 dns_search_list 7 {'61' * L}", "show")] + [
+        "new", "push ICMPv6 134", "set 0 dns_search_list 0 -", "show",
+        "new", "push ICMPv6 134", "set 0 dns_search_list 4294967295 " + "62" * 255 + ",612e62", "show",
+        # regression: KF-C04-Icmp-4 (all four AT bits), the empty key
+        "new", "push ICMPv6 134", "set 0 handover_key_request 13 aabbccdd", "set 0 handover_key_reply 65535 15 -", "show",
+        # lists at both ends, 64-bit timestamp, assist info of 255 octets, addresses that fill the option
+        "new", "push ICMPv6 134", "set 0 recursive_dns_servers 4294967295 " + ",".join(["20010db8000000000000000000000001"] * 127), "show",
+        "new", "push ICMPv6 134", "set 0 source_addr_list 000000000000 20010db8000000000000000000000001", "set 0 timestamp 010203040506 18446744073709551615", "show",
+        "new", "push ICMPv6 134", "set 0 handover_assist_info 255 " + "7f" * 255, "set 0 link_layer_addr 2 0011223344", "set 0 route_info 64 3 1 20010db800000001", "show",
     ] + (
         # regression of KF-C02-Icmp-1 (extensions behind a timestamp header overwrote the payload).  Such a message cannot
         # be parsed back with its extensions (RFC 4884 does not extend timestamps), so it is a C02 program only
